@@ -331,10 +331,30 @@ def program_check(src_pairs, checker, col=None):
 # ----------------------------------------------------------------- shards
 
 
+def small_typeddicts():
+    """Every TypedDict over keys a (int | str) and b (str) with each key absent or present with
+    required x readonly flags, open / closed / extra_items=int."""
+    import itertools
+
+    def options(key, types):
+        yield None
+        for t in types:
+            for req in (True, False):
+                for ro in (False, True):
+                    yield [key, ["cls", t], req, ro]
+    out = []
+    for ia, ib in itertools.product(list(options("a", ["int", "str"])), list(options("b", ["str"]))):
+        items = [x for x in (ia, ib) if x is not None]
+        for extra in (None, ["never"], ["cls", "int"]):
+            out.append(("td", items, extra, False))
+    return out
+
+
 def shards(tier, seed):
     n = 16
     per = 1200 if tier == "quick" else 40000
     out = [{"mode": "pairs", "index": i, "examples": per} for i in range(n)]
+    out += [{"mode": "td-pairs", "index": i, "of": 8} for i in range(8)]
     out += [{"mode": "program", "index": i, "modules": 5 if tier == "quick" else 150} for i in range(4 if tier == "quick" else 16)]
     return out
 
@@ -375,6 +395,24 @@ def run_shard(spec):
                     col.fail(key, what[:500], {"a": ra, "b": rb, "exclude_any": True}, raise_new=True)
             return t
         runner.drive(col, make_any, seed + 7, spec["examples"] // 3, replay=replay)
+        return col.result()
+
+    if spec["mode"] == "td-pairs":
+        tds = small_typeddicts()
+        k = 0
+        for i, ra in enumerate(tds):
+            for j, rb in enumerate(tds):
+                k += 1
+                if k % spec["of"] != spec["index"]:
+                    continue
+                fails, info = check_pair(ra, rb, laws=False)
+                col.case(nontrivial_id=("td", i, j) if info["accepted"] and i != j else None,
+                         label=[f"accepted:{info['accepted']}", "kind:td-pair"])
+                for key, what in fails:
+                    col.fail(key, what[:500], {"a": ra, "b": rb})
+            if col.out_of_time():
+                break
+        col.extra["exhaustive_bounds"] = ["all ordered pairs of TypedDicts over keys a (int|str) / b (str), each absent or required x readonly, open / closed / extra_items=int"]
         return col.result()
 
     checker = sut.new_checker()
